@@ -264,6 +264,76 @@ func newConfigScenario(concurrent bool) func() {
 	}
 }
 
+// midCallCloseScenario: the manager is closed from inside the per-node function of a call on two nodes,
+// that is, after the request has been handed over for node 1 and before it is for node 2 (a program may
+// do this; it is also the deterministic form of "Close strikes between two hand-overs of one call"). With
+// wait set, the per-node function returns only after everything Close caused has been processed (node 1
+// has reported its lost stream). The call must return, later calls fail fast, nothing survives.
+func midCallCloseScenario(kind string, wait bool, buf uint) func() {
+	return func() {
+		w := world.New(world.Opts{N: 2, Window: 4, SendBuffer: buf})
+		if w.Cfg == nil {
+			return
+		}
+		w.Handle = func(h *world.HCtx) world.Reply {
+			world.Block()
+			return world.Reply{}
+		}
+		name := fmt.Sprintf("close/in-per-node-function/%s/wait=%v/buf=%d", kind, wait, buf)
+		key := fmt.Sprintf("%s/in-per-node-function", classOf(kind))
+		c := w.NewCall(kind)
+		c.Ctx = context.Background()
+		c.Verdict = func(inv *world.QFInv) { inv.Level = len(inv.Keys); inv.Quorum = false }
+		closed := false
+		c.Hook = func(id uint32) {
+			if id == 2 && !closed {
+				w.Mgr.Close()
+				closed = true
+				if wait {
+					w.Wait("closed")
+				}
+			}
+		}
+		settle := func() {
+			mc.Quiesce()
+			for i := 0; i < 4 && mc.FireTimers(nil) > 0; i++ {
+				mc.Quiesce()
+			}
+		}
+		w.Start(c)
+		settle()
+		if wait {
+			w.Open("closed")
+			settle()
+		}
+		if !closed {
+			fail("C12/close-blocked", key, "%s: Close called from the per-node function has not returned", name)
+		}
+		if done, _ := callDone(c); !done {
+			fail("C12/stranded-in-flight", key, "%s: the call during which Close ran has not returned (client library threads: %v)", name, clientLibThreads())
+		}
+		post := w.NewCall("QuorumCall")
+		post.Ctx = context.Background()
+		post.Verdict = c.Verdict
+		w.Start(post)
+		settle()
+		if done, err := callDone(post); !done {
+			fail("C12/post-close-blocks", key, "%s: a quorum call issued after Close returned has not returned", name)
+		} else if err == nil {
+			fail("C12/post-close-no-error", key, "%s: a quorum call issued after Close reports success", name)
+		}
+		if lt := clientLibThreads(); len(lt) > 0 {
+			fail("C12/goroutine-left", strings.Join(threadSites(lt), ","), "%s: client library goroutines still alive after Close: %v", name, lt)
+		}
+		for i, cn := range w.FW.Conns {
+			if !cn.Closed() {
+				fail("C12/connection-left", key, "%s: connection %d is still open after Close", name, i)
+			}
+		}
+		mc.Outcome("closed")
+	}
+}
+
 func noConnectScenario() {
 	mc.NoBranch(true)
 	w := &world.W{}
@@ -345,6 +415,13 @@ func closeInstances(tier string) []Instance {
 	}
 	out = append(out, Instance{Name: "close/new-configuration/concurrent-with-close", Bound: cb, Root: newConfigScenario(true)})
 	out = append(out, Instance{Name: "close/no-connect-manager", Bound: 0, Root: noConnectScenario})
+	for _, kind := range []string{"QuorumCallPerNodeArg", "QuorumCallAsyncPerNodeArg", "CorrectablePerNodeArg", "CorrectableStreamPerNodeArg", "MulticastPerNodeArg", "QuorumCallCombo", "CorrectableStreamCombo"} {
+		for _, wait := range []bool{false, true} {
+			for _, buf := range []uint{0, 1} {
+				out = append(out, Instance{Name: fmt.Sprintf("close/in-per-node-function/%s/wait=%v/buf=%d", kind, wait, buf), Bound: 1, Root: midCallCloseScenario(kind, wait, buf)})
+			}
+		}
+	}
 	return out
 }
 
